@@ -38,7 +38,9 @@ func (rn *Runner) genDoc(maxNodes int) *Doc {
 var c01Tests = []NodeTest{{Kind: "any"}, {Kind: "node"}, {Kind: "text"}, {Kind: "comment"}, {Kind: "pi"}, {Kind: "pit", Local: "t"},
 	{Kind: "name", Local: "a"}, {Kind: "name", Local: "nope"}, {Kind: "nsany", Prefix: "p"}, {Kind: "localany", Local: "b"},
 	{Kind: "qn", Prefix: "p", Local: "a"}, {Kind: "qn", Prefix: "q", Local: "item"}, {Kind: "name", Local: "lang"}, {Kind: "qn", Prefix: "xml", Local: "lang"},
-	{Kind: "name", Local: "p"}, {Kind: "name", Local: "text"}, {Kind: "qn", Prefix: "child", Local: "descendant"}, {Kind: "qn", Prefix: "text", Local: "node"}}
+	{Kind: "name", Local: "p"}, {Kind: "name", Local: "text"}, {Kind: "qn", Prefix: "child", Local: "descendant"}, {Kind: "qn", Prefix: "text", Local: "node"},
+	// an UNBOUND prefix: an error, not the no-namespace names
+	{Kind: "nsany", Prefix: "zz"}, {Kind: "qn", Prefix: "zz", Local: "a"}}
 
 func famC01(rn *Runner) {
 	env := stdEnv()
@@ -566,6 +568,15 @@ func famC18(rn *Runner) {
 		for i := 0; i < rn.Scale(200, 600) && !rn.TooMany(); i++ {
 			P := &EPath{Abs: true, Steps: g.Steps(1, 1+rn.R.Intn(2), 3)}
 			R := g.Steps(1, 1+rn.R.Intn(2), 3)
+			if i%8 == 0 {
+				// an attribute or namespace node together with its own ancestors in P (it has a parent without being a
+				// descendant of it), and a suffix that can return the node itself
+				dos := &Stp{Axis: "descendant-or-self", Test: NodeTest{Kind: "node"}, Abbrev: true}
+				P = &EPath{Abs: true, Steps: []*Stp{dos, {Axis: pick(rn.R, []string{"attribute", "namespace"}), Test: NodeTest{Kind: "any"}},
+					{Axis: "ancestor-or-self", Test: NodeTest{Kind: "node"}}}}
+				R = [][]*Stp{{dos, {Axis: "self", Test: NodeTest{Kind: "node"}, Abbrev: true}}, {dos, {Axis: "self", Test: NodeTest{Kind: "node"}}},
+					{dos, {Axis: "parent", Test: NodeTest{Kind: "node"}, Abbrev: true}}, {{Axis: "descendant-or-self", Test: NodeTest{Kind: "node"}}}}[(i/8)%4]
+			}
 			if containsAbs(&EPath{Steps: R}) {
 				continue
 			}
